@@ -513,38 +513,43 @@ func (s Subtitles) WriteToWebVTT(o io.Writer) (err error) {
 
 	sort.Strings(k)
 	for _, id := range k {
+		// Region may have no inline style
+		var inlineStyle = s.Regions[id].InlineStyle
+		if inlineStyle == nil {
+			inlineStyle = &StyleAttributes{}
+		}
 		c = append(c, []byte("Region: id="+s.Regions[id].ID)...)
-		if s.Regions[id].InlineStyle.WebVTTLines != 0 {
+		if inlineStyle.WebVTTLines != 0 {
 			c = append(c, bytesSpace...)
-			c = append(c, []byte("lines="+strconv.Itoa(s.Regions[id].InlineStyle.WebVTTLines))...)
+			c = append(c, []byte("lines="+strconv.Itoa(inlineStyle.WebVTTLines))...)
 		} else if s.Regions[id].Style != nil && s.Regions[id].Style.InlineStyle != nil && s.Regions[id].Style.InlineStyle.WebVTTLines != 0 {
 			c = append(c, bytesSpace...)
 			c = append(c, []byte("lines="+strconv.Itoa(s.Regions[id].Style.InlineStyle.WebVTTLines))...)
 		}
-		if s.Regions[id].InlineStyle.WebVTTRegionAnchor != "" {
+		if inlineStyle.WebVTTRegionAnchor != "" {
 			c = append(c, bytesSpace...)
-			c = append(c, []byte("regionanchor="+s.Regions[id].InlineStyle.WebVTTRegionAnchor)...)
+			c = append(c, []byte("regionanchor="+inlineStyle.WebVTTRegionAnchor)...)
 		} else if s.Regions[id].Style != nil && s.Regions[id].Style.InlineStyle != nil && s.Regions[id].Style.InlineStyle.WebVTTRegionAnchor != "" {
 			c = append(c, bytesSpace...)
 			c = append(c, []byte("regionanchor="+s.Regions[id].Style.InlineStyle.WebVTTRegionAnchor)...)
 		}
-		if s.Regions[id].InlineStyle.WebVTTScroll != "" {
+		if inlineStyle.WebVTTScroll != "" {
 			c = append(c, bytesSpace...)
-			c = append(c, []byte("scroll="+s.Regions[id].InlineStyle.WebVTTScroll)...)
+			c = append(c, []byte("scroll="+inlineStyle.WebVTTScroll)...)
 		} else if s.Regions[id].Style != nil && s.Regions[id].Style.InlineStyle != nil && s.Regions[id].Style.InlineStyle.WebVTTScroll != "" {
 			c = append(c, bytesSpace...)
 			c = append(c, []byte("scroll="+s.Regions[id].Style.InlineStyle.WebVTTScroll)...)
 		}
-		if s.Regions[id].InlineStyle.WebVTTViewportAnchor != "" {
+		if inlineStyle.WebVTTViewportAnchor != "" {
 			c = append(c, bytesSpace...)
-			c = append(c, []byte("viewportanchor="+s.Regions[id].InlineStyle.WebVTTViewportAnchor)...)
+			c = append(c, []byte("viewportanchor="+inlineStyle.WebVTTViewportAnchor)...)
 		} else if s.Regions[id].Style != nil && s.Regions[id].Style.InlineStyle != nil && s.Regions[id].Style.InlineStyle.WebVTTViewportAnchor != "" {
 			c = append(c, bytesSpace...)
 			c = append(c, []byte("viewportanchor="+s.Regions[id].Style.InlineStyle.WebVTTViewportAnchor)...)
 		}
-		if s.Regions[id].InlineStyle.WebVTTWidth != "" {
+		if inlineStyle.WebVTTWidth != "" {
 			c = append(c, bytesSpace...)
-			c = append(c, []byte("width="+s.Regions[id].InlineStyle.WebVTTWidth)...)
+			c = append(c, []byte("width="+inlineStyle.WebVTTWidth)...)
 		} else if s.Regions[id].Style != nil && s.Regions[id].Style.InlineStyle != nil && s.Regions[id].Style.InlineStyle.WebVTTWidth != "" {
 			c = append(c, bytesSpace...)
 			c = append(c, []byte("width="+s.Regions[id].Style.InlineStyle.WebVTTWidth)...)
